@@ -82,7 +82,9 @@ def gen_script(rng):
         "partitioner": partitioner,
     }
     steps = []
-    unique_keys = rng.random() < 0.5
+    # round robin is handed keys and ignores them: unique keys (exact matching of selection and landing),
+    # no keys, or a few keys that REPEAT (two devices taking turns) - each send consumes one selection
+    rr_keys = rng.choice(["unique", "unique", "none", "pool", "pool"])
     nsend = rng.choice([4, 8, 12, 20, 30])
     pool = [gen_key(rng) for _ in range(rng.choice([2, 4, 8]))]
     t = 0.0
@@ -92,7 +94,7 @@ def gen_script(rng):
         if partitioner == "hashed":
             key = (rng.choice(pool) if rng.random() < 0.5 else gen_key(rng)).hex()
         else:
-            key = ("%04x" % sid) if unique_keys else None
+            key = ("%04x" % sid) if rr_keys == "unique" else None if rr_keys == "none" else rng.choice(pool[:3]).hex() if rng.random() < 0.85 else None
         steps.append({"at": t, "do": "send", "sid": sid, "topic": topic, "key": key, "n": rng.choice([1, 1, 2, 3]), "size": rng.choice([0, 0, 40, 400])})
     span = t + 0.5
     timeout = rng.choice([1000, 2000, 5000])
@@ -226,6 +228,19 @@ def judge(r, hist):
     for e in r.picks:
         hist["xl:list-handed-to-partitioner-" + ("ascending" if e["list"] == sorted(e["list"]) else "NOT-ascending")] += 1
     landed_of = {}  # sid -> (topic, partition, n of first request)
+    # the selection made for each send: i-th send of a (topic, key) <-> i-th selection with that (topic, key), when
+    # there are equally many (every send selected exactly once) and each selection follows its send
+    exact_pick = {}
+    by_tk_s, by_tk_p = collections.defaultdict(list), collections.defaultdict(list)
+    for sid, s in sorted(r.sends.items(), key=lambda x: x[1]["n"]):
+        by_tk_s[(s["topic"], s["key"])].append(sid)
+    for e in r.picks:
+        by_tk_p[(e["topic"], e["key"])].append(e)
+    for tk, sids in by_tk_s.items():
+        ps = by_tk_p.get(tk, [])
+        if len(ps) == len(sids) and all(r.sends[sid]["n"] < e["n"] for sid, e in zip(sids, ps)):
+            for sid, e in zip(sids, ps):
+                exact_pick[sid] = e
     for sid, s in sorted(r.sends.items()):
         where = [x for v in s["values"] for x in carried.get(v, [])]
         if not where:
@@ -255,6 +270,15 @@ def judge(r, hist):
             if not narrowed:
                 hist["xl:list-handed-to-partitioner-is-no-metadata-view"] += 1
             use = narrowed or cands
+            # exactly ONE candidate whenever the selection made for THIS send can be told: the sends of the (topic, key)
+            # and the selections with that key correspond one to one, in order (a wrong pick passes an "any" over
+            # several small sets with probability >= 1/2)
+            mine = exact_pick.get(sid)
+            if mine is not None and frozenset(mine["list"]) in cands and mine["n"] < first_n:
+                use = [frozenset(mine["list"])]
+                hist["xl:hashed-judged-against-the-list-of-its-own-selection"] += 1
+            elif len(use) > 1:
+                hist["xl:hashed-judged-any-of-several-candidate-sets"] += 1
             hist["xl:hashed-judged-candidates=%d" % len(use)] += 1
             hist["xl:hashed-key-len-mod4=%d" % (len(s["key"]) % 4)] += 1
             j.ask("keyed message landed on another partition than the Java client's choice: key %s, topic %s with partitions %r, landed on %d"
@@ -262,6 +286,34 @@ def judge(r, hist):
                   "c18-xl:hash-not-java", {"sid": sid, "key_hex": s["key"].hex(), "partitions": [sorted(c) for c in use], "landed": p},
                   ["mon-hash %s %s %d" % (hx(s["key"]), ints(sorted(c)), p) for c in use], "any")
     if partitioner == "rr":
+        keys = [s["key"] for s in r.sends.values() if s["key"] is not None]
+        hist["xl:rr-keys=" + ("none" if not keys else "all-unique" if len(set(keys)) == len(r.sends) else "repeating")] += 1
+        # calm run (metadata loaded before the first send, no fault, no topic created on the way): every
+        # send consumes ONE selection at dispatch, in send order, so the partitions the sends of a topic
+        # LANDED on, in send order, are the selections: every window of k*n of them is fair
+        calm = bool(sc.get("warm")) and all(st["do"] == "send" for st in sc["steps"]) and not sc["cluster"].get("auto_create")
+        if calm:
+            hist["xl:rr-calm-runs"] += 1
+            for topic in sorted(set(s["topic"] for s in r.sends.values())):
+                lsts = set(tuple(sorted(set(e["list"]))) for e in r.picks if e["topic"] == topic)
+                if len(lsts) != 1 or any("result" not in e for e in r.picks if e["topic"] == topic):
+                    continue
+                cur = list(next(iter(lsts)))
+                n, run = len(cur), []
+                for sid, s in sorted(r.sends.items()):
+                    if s["topic"] != topic:
+                        continue
+                    if sid not in landed_of:
+                        run = []  # selected (or not) but never carried to a broker: the window is broken here
+                        continue
+                    run.append(landed_of[sid][1])
+                    for k in (1, 2):
+                        if n and len(run) >= k * n:
+                            w = run[-k * n:]
+                            hist["xl:rr-landed-window"] += 1
+                            j.ask("round robin through the full stack is not fair: topic %s with partitions %r, %d consecutive sends LANDED on %r"
+                                  % (topic, cur, k * n, w), "c18-xl:rr-landed-unfair", {"topic": topic, "partitions": cur, "window": w},
+                                  ["mon-rr %s %s" % (ints(cur), ints(w))])
         by_topic = collections.defaultdict(list)
         for e in r.picks:
             by_topic[e["topic"]].append(e)
